@@ -30,6 +30,8 @@ def main():
     meta = {"property": pid, "variant": v, "source": "fresh sub-agent given only the property text and a scratch worktree"}
     import tempfile
     env = dict(os.environ, PYTHONPATH=wt, XDG_RUNTIME_DIR=tempfile.mkdtemp(prefix="xdg-"))
+    if not os.path.isdir(wt):
+        sh(f"git worktree add -q --detach {wt} HEAD", cwd="/repo")
     sh("git reset -q --hard", cwd=wt)      # (a failed 3-way apply leaves conflict markers behind)
     # the scratch worktree follows /repo's HEAD (later fix: commits may have landed since the seed was written)
     rc, head = sh("git rev-parse HEAD", cwd="/repo")
